@@ -796,6 +796,56 @@ def judge_spread(chk, cell, name, v, obs, t, m, vj, vs, tag, replay):
         chk.feature("e2e:cell-without-defined-form(not judged)")
 
 
+# ---- query parameters spread over several entries: model (SV/Model/C06Entries.lean) vs the real pipeline -----------------
+
+def corr_entries(chk, n, variants):
+    """`cellEntries` of the three spread cells (form+explode array / object, deepObject) against the query entries of the
+    request the real pipeline prepares (strategy post-maps -> Case -> requests.prepare()), entry for entry"""
+    rng, drv = chk.rng, chk.driver()
+    vq, vt, vm, vs, vj = variants
+    base = "http://127.0.0.1:8080/api"
+    cells = [({"loc": "query", "style": "form", "explode": True, "ty": "array"}, "array"),
+             ({"loc": "query", "style": "form", "explode": True, "ty": "object"}, "object"),
+             ({"loc": "query", "style": "deepObject", "explode": True, "ty": "object"}, "object")]
+    pipes, work = {}, []
+    prims = [True, False, None, 0, -3, 12, "", "a", "a b", "x&y=z", "é", "[k]", "%41"]
+    for i in range(n):
+        cell, ty = cells[i % 3]
+        name = rng.choice(["p", "ids", "f", "q[x]"])
+        if ty == "array":
+            v = [rng.choice(prims) for _ in range(rng.randint(0 if i % 9 else 1, 4))]
+        else:
+            keys = rng.sample(["a", "b", "k k", "[z]", "a[b]", "é"], rng.randint(1, 3))
+            v = {k: rng.choice(prims) for k in keys}
+        key = (cell["style"], ty, name)
+        if key not in pipes:
+            pipes[key] = Pipeline([raw_def(name, "query", ty, cell["style"], True)], "/u", base)
+        pl = pipes[key]
+        try:
+            prep = pl.prepared(pl.case({"query": {name: copy.deepcopy(v)}}))
+            got = [[k, x] for k, x in observed_from_prepared(prep, base, pl.template)["query"]]
+        except Rejected:
+            got = "REJECTED"
+        except Exception as e:  # noqa: BLE001
+            got = f"EXC:{type(e).__name__}"
+        work.append((cell, name, v, got))
+    outs = drv.batch([("cell_entries", {"vt": vt, "vm": vm, "vs": vs, "cell": c, "name": nm, "value": enc_val(v)})
+                      for c, nm, v, _ in work])
+    for (cell, name, v, got), m in zip(work, outs):
+        model_err(m, (cell, name, v))
+        chk.case("query:entries", key=[cell["style"], cell["ty"], name, enc_val(v)], nontrivial=bool(v),
+                 sample={"cell": cell, "name": name, "value": v, "impl": got})
+        chk.feature(f"entries:{cell['style']}:{cell['ty']}")
+        if isinstance(got, str):
+            chk.feature(f"entries:{got}")
+            continue
+        if m is None:
+            continue
+        # an empty array gives no entry at all on both sides
+        if got != m:
+            chk.disagreement("query:entries", {"cell": cell, "name": name, "value": v}, m, got)
+
+
 # ---- prepare_path / prepare_url / get_full_path -------------------------------------------------------------------------
 
 ORIGINS = ["http://127.0.0.1:8080", "https://example.com", "http://localhost"]
@@ -1742,6 +1792,7 @@ def run(chk):
     replay_bodies(chk, chk.budget(300, 3000))
     corr_template(chk, chk.budget(1500, 15000), variants)
     corr_template_history(chk, chk.budget(400, 4000), variants)
+    corr_entries(chk, chk.budget(300, 3000), variants)
     corr_empty_dicts(chk, chk.budget(200, 2000))
     coverage_stability(chk)
     lap("headers+bodies+template")
